@@ -424,7 +424,7 @@ def native_replay(ctx, job, input_bytes, tag, mode="asan"):
     os.makedirs(d, exist_ok=True)
     main = os.path.join(d, "main.cpp")
     with open(main, "w") as f:
-        f.write('extern "C" void %s(); extern "C" int vp_replay_failed();\nint main(){ %s(); return vp_replay_failed(); }\n' % (job.entry, job.entry))
+        f.write('#define VP_NATIVE_MAIN 1\nextern "C" void %s(); extern "C" int vp_replay_failed();\nint main(){ %s(); return vp_replay_failed(); }\n' % (job.entry, job.entry))
         f.write(open(os.path.join(RT, "vp_cdefs.h")).read())
     defs = ["-D%s=%s" % kv for kv in sorted(list(job.defs.items()) + list(job.cdefs.items()))]
     exe = os.path.join(d, "replay")
